@@ -376,8 +376,16 @@ func genReq(t *rapid.T, spec *SysSpec, prof IngressProfile) *ReqSpec {
 			rs.Fwd = &NetAction{Kind: rapid.SampledFrom([]string{"refused", "reset", "hang", "resp_lost"}).Draw(t, "fwdkind")}
 		case 4:
 			rs.Fwd = &NetAction{Kind: "status", Status: 204, Headers: map[string]string{"X-User-Id": "u42"}}
+		case 5:
+			// a long copied header: what is stored (and measured against
+			// max_headers) is the merged set, the service's value replacing the client's
+			rs.Fwd = &NetAction{Kind: "status", Status: 200, Headers: map[string]string{"X-User-Id": strings.Repeat("u", rapid.SampledFrom([]int{40, 90, 200, 300}).Draw(t, "fwdlong"))}}
 		default:
 			rs.Fwd = &NetAction{Kind: "status", Status: 200, Headers: map[string]string{"X-User-Id": "u7"}}
+		}
+		if rapid.IntRange(0, 2).Draw(t, "fwd.clienthdr") == 0 {
+			// the client sends the header the auth service is going to overwrite
+			rs.Headers = append(rs.Headers, KV{"X-User-Id", rapid.SampledFrom([]string{"c", "client-chosen-subject"}).Draw(t, "fwd.clientval")})
 		}
 	}
 	return rs
